@@ -23,8 +23,9 @@ LEVEL_TEXT = ("Decides clauses C16-a..d: every field of the derive's ContainerAt
               ' converter the head of the PascalCase form is what gets lower-cased (`_id` -> `Id` -> `id`), on that of the variant converter the head of the name; in'
               ' the PascalCase loop the pending-capital flag is cleared on every path of an iteration that found it set (whatever character follows the `_` takes the'
               " capital). C16-g: in the field loops of schema_of_fields (predicate helpers expanded) no path from reading a field's attributes to a push of that fiel"
-              "d's schema avoids the edge flag == false, for each of serde's skip, skip_serializing and skip_deserializing separately. Decides these clauses, not agr"
-              'eement of the derived schema with serde_derive for all type definitions.')
+              "d's schema avoids the edge flag == false, for each of serde's skip, skip_serializing and skip_deserializing separately. C16-h: the proxy type whose sc"
+              "hema stands for a container with serde's into / from / try_from is into's whenever into is given (from and try_from are used only on paths that found "
+              'into absent). Decides these clauses, not agreement of the derived schema with serde_derive for all type definitions.')
 
 ATTR = "ohkami_macros::openapi::attributes::serde::attributes::"
 # serde attributes that do not change the serialized shape / the set of accepted documents described by the schema
@@ -55,6 +56,7 @@ def run(ck, progs):
         ck.guard("C16-e DECISION camelCase head", lambda: c16e(ck, prog))
         ck.guard("C16-f MUSTPASS PascalCase flag", lambda: c16f(ck, prog))
         ck.guard("C16-g DECISION each skip attribute skips", lambda: c16g(ck, prog))
+        ck.guard("C16-h DECISION proxy type is the written one", lambda: c16h(ck, prog))
         ck.guard("C16-d ORDER rename precedence", lambda: c16d(ck, prog))
     ck.config = None
 
@@ -405,3 +407,76 @@ def c16g(ck, prog):
                   "" if ok else "a field carrying #[serde(%s)] (alone) still gets a property/element in the derived schema (path bb%s): serde leaves the field out of %s, so values serde writes (or accepts) do not validate" % (
                       flag, "->".join(map(str, esc[1][:10])) if esc else "?", "the serialized shape" if flag != "skip_deserializing" else "the accepted input"),
                   how="every path to the %d push(es) of this loop takes the edge `%s == false`" % (len(mine), flag))
+
+
+def c16h(ck, prog):
+    """`#[serde(into = "A", from = "B")]`: serde writes the container through A and reads it through B; the schema describes
+    what serde writes, so when `into` is given the proxy type whose schema stands for the container is `into`'s. In the two
+    derive entry points the type handed to `parse_str::<Type>` is `from`'s or `try_from`'s only on paths that found `into`
+    absent (or, written as an `or` chain, `into` comes first)."""
+    R = "C16-h DECISION proxy type is the written one"
+    n = 0
+    for nm in ("derive_schema_for_struct", "derive_schema_for_enum"):
+        fs = [f for f in prog.fns.values() if f.name == nm and f.crate == "ohkami_macros"]
+        if len(fs) != 1:
+            raise AnchorLost("%s not found" % nm)
+        f = prog.inlined(fs[0], 2, lambda caller, callee: callee.crate == "ohkami_macros" and len(callee.blocks) < 40 and "derive_schema" in callee.key)
+        for c in f.calls():
+            if not (c.name == "parse_str" and "Type" in " ".join(c.targs)):
+                continue
+            d = decision.describe_deep(f, c.args[0], 12)
+            if not re.search(r"serde\.(into|from|try_from)\b", d) and "var:" not in d:
+                continue
+            n += 1
+            ok, why = True, ""
+            order = re.findall(r"serde\.(into|from|try_from)\b", d)
+            if order:
+                # expression form: `a.or(b).or(c)` / `a.or_else(|| b)`: the leftmost present one wins
+                ok = order[0] == "into" or "into" not in order and False
+                why = "the proxy type is chosen in the order %s" % order
+            else:
+                # `match (&into, &from, &try_from) { (Some(t), _, _) | (_, Some(t), _) | .. => t }`: every definition of t
+                op = c.args[0]
+                st = f.origin(op)
+                if st and st[-1][0] == "call" and st[-1][1].name in ("deref", "as_str", "as_ref") and st[-1][1].args:
+                    op = st[-1][1].args[0]
+                    st = f.origin(op)
+                if not (st and st[-1][0] == "multi"):
+                    ok, why = False, "the proxy type `%s` has a shape this rule cannot read" % d[:60]
+                else:
+                    for (dbb, si, dk, payload) in f.defs().get(st[-1][1], []):
+                        if f.is_cleanup(dbb) or dk != "assign":
+                            continue
+                        r = payload["r"]
+                        src = r[1] if r[0] == "use" else (["c", r[2]] if r[0] == "ref" else None)
+                        dd = decision.describe_deep(f, src, 8) if src is not None else "?"
+                        fld = re.findall(r"\.(into|from|try_from)\b", dd)
+                        if not fld:
+                            # bound through the tuple scrutinee: the tuple field index tells which attribute
+                            tm = re.search(r"tuple\{([^{}]*)\}\.(\d)", dd)
+                            if tm:
+                                parts = tm.group(1).split(",")
+                                k = int(tm.group(2))
+                                fld = re.findall(r"\.(into|from|try_from)\b", parts[k]) if k < len(parts) else []
+                        if not fld:
+                            ok, why = False, "a definition of the proxy type (`%s`) cannot be attributed to an attribute" % dd[:60]
+                            break
+                        if fld[0] in ("from", "try_from"):
+                            # (path form: the match's decision tree reaches this binding over several edges, none of which
+                            # dominates it; the residual edge of the exhaustive `into` test is not a path)
+                            from .lib import pathsens as _ps
+
+                            def _into_none(facts):
+                                for fa in facts:
+                                    if fa.kind == "variant" and fa.allowed == {"None"}:
+                                        w = decision.describe_deep(f, fa.place, 6) if getattr(fa, "place", None) else guards.describe_origin(f, fa.steps)
+                                        if re.search(r"\.into\b", w):
+                                            return True
+                                return False
+                            none_into = _ps.path_avoiding_edges(f, prog, 0, dbb, _into_none) is None
+                            if not none_into:
+                                ok, why = False, "the type of `%s` is used on a path that did not find `into` absent" % fld[0]
+                                break
+            ck.ob(R, "%s:into-first" % nm, ok, f.loc(c.sp), "" if ok else "%s: %s -- with #[serde(into = \"A\", from = \"B\")] the derived schema would describe B, the type serde reads through, while serde writes the container as A" % (nm, why),
+                  how="from / try_from stand in only when into is absent")
+    ck.floor(R, "proxy type selections", n, 2)
